@@ -521,3 +521,7 @@ func init() {
 func init() {
 	ctl("generic error loses its arm in ResultFromError", "K3", "ResultFromError|generic type", "ovsdb", "", "ResultFromError", kCase, "*Error", 0, del)
 }
+
+func init() {
+	ctl("monitor request sent without arming the deferral", "DEFER-ARM", "monitor|monitor request sent with deferral armed", "client", "ovsdbClient", "monitor", kStmt, "db.deferUpdates = true", 0, del)
+}
